@@ -1,5 +1,5 @@
 (* C09, histories of calls: there is no state between calls (Model/DispatchSeq.v). *)
-From Coq Require Import List Bool Arith.
+From Coq Require Import List Bool Arith Lia.
 Import ListNotations.
 From Molli Require Import Model.Dispatch Model.DispatchSeq Proofs.Dispatch.
 
@@ -29,6 +29,16 @@ Section Assoc.
     - destruct (eqb k' k) eqn:E; simpl.
       + apply eqb_spec in E; subst k'. rewrite (eqb_neq _ _ Hne). reflexivity.
       + destruct (eqb k' k2); [reflexivity | exact IH].
+  Qed.
+
+  Lemma assoc_set_forallb (P : V -> bool) l k v :
+    forallb (fun p => P (snd p)) l = true -> P v = true ->
+    forallb (fun p => P (snd p)) (assoc_set eqb l k v) = true.
+  Proof.
+    intros Hl Hv. induction l as [|[k' v'] r IH]; simpl in *.
+    - rewrite Hv. reflexivity.
+    - apply andb_prop in Hl; destruct Hl as [H1 H2].
+      destruct (eqb k' k); simpl; [rewrite Hv, H2; reflexivity | rewrite H1, (IH H2); reflexivity].
   Qed.
 End Assoc.
 
@@ -66,12 +76,71 @@ Proof. unfold get_stream, set_stream; simpl. apply assoc_get_set_other. exact Na
 Lemma get_stream_set_file w k t s : get_stream (set_file w k t) s = get_stream w s.
 Proof. reflexivity. Qed.
 
+Lemma get_stream_set_sstate w s q s2 : get_stream (set_sstate w s q) s2 = get_stream w s2.
+Proof. reflexivity. Qed.
+
+Lemma get_file_set_sstate w s q k : get_file (set_sstate w s q) k = get_file w k.
+Proof. reflexivity. Qed.
+
+Lemma get_sstate_set_stream w s t s2 : get_sstate (set_stream w s t) s2 = get_sstate w s2.
+Proof. reflexivity. Qed.
+
+Lemma get_sstate_set_file w k t s : get_sstate (set_file w k t) s = get_sstate w s.
+Proof. reflexivity. Qed.
+
+Lemma get_set_sstate_same w s q : get_sstate (set_sstate w s q) s = q.
+Proof. unfold get_sstate, set_sstate; simpl. apply assoc_get_set_same. exact Nat.eqb_eq. Qed.
+
+Lemma get_set_sstate_other w s q s2 : s <> s2 -> get_sstate (set_sstate w s q) s2 = get_sstate w s2.
+Proof. unfold get_sstate, set_sstate; simpl. apply assoc_get_set_other. exact Nat.eqb_eq. Qed.
+
+Lemma set_sstate_ready w s q : streams_ready w = true -> is_open q = true -> streams_ready (set_sstate w s q) = true.
+Proof. unfold streams_ready, set_sstate; simpl. apply (assoc_set_forallb Nat.eqb is_open). Qed.
+
+(* ---------------------------------------------------------------- writing at a position *)
+(* at the end of the text it is plain appending *)
+Lemma write_at_end t x : write_at t (length t) x = t ++ x.
+Proof.
+  unfold write_at. rewrite firstn_all. rewrite skipn_all2 by lia. rewrite app_nil_r. reflexivity.
+Qed.
+
+(* what the stream held BEFORE the position is untouched *)
+Lemma write_at_prefix t p x : p <= length t -> firstn p (write_at t p x) = firstn p t.
+Proof.
+  intros H. unfold write_at. rewrite firstn_app, firstn_firstn, Nat.min_id.
+  rewrite (firstn_length_le _ H), Nat.sub_diag. simpl. apply app_nil_r.
+Qed.
+
+(* the records written lie at the position *)
+Lemma write_at_here t p x : p <= length t -> firstn (length x) (skipn p (write_at t p x)) = x.
+Proof.
+  intros H. unfold write_at. rewrite skipn_app. rewrite (firstn_length_le _ H), Nat.sub_diag.
+  rewrite skipn_all2 by (rewrite (firstn_length_le _ H); lia). simpl.
+  rewrite firstn_app, Nat.sub_diag, firstn_all. simpl. apply app_nil_r.
+Qed.
+
+(* what lay BEHIND the records replaced is untouched (nothing is shifted, nothing is appended twice) *)
+Lemma write_at_suffix t p x : p <= length t ->
+  skipn (p + length x) (write_at t p x) = skipn (p + length x) t.
+Proof.
+  intros H. unfold write_at. rewrite skipn_app. rewrite (firstn_length_le _ H).
+  rewrite skipn_all2 by (rewrite (firstn_length_le _ H); lia). simpl.
+  replace (p + length x - p) with (length x) by lia.
+  rewrite skipn_app, Nat.sub_diag, skipn_all. reflexivity.
+Qed.
+
+Lemma write_at_length t p x : p <= length t -> length (write_at t p x) = Nat.max (length t) (p + length x).
+Proof.
+  intros H. unfold write_at. rewrite !app_length, (firstn_length_le _ H), skipn_length. lia.
+Qed.
+
 (* ---------------------------------------------------------------- one step *)
 (* whatever happened before, a call does what the ONE-SHOT specification says for its cell *)
 Lemma step_action_is_spec w c slot o v md : fst (snd (step w (OCall c slot o v md))) = spec c.
 Proof.
   unfold step. destruct (c_verb c); destruct (spec c) as [e|r|m s ok| |n]; try reflexivity;
-  try (destruct r; reflexivity); destruct s; try reflexivity; destruct ok; reflexivity.
+  try (destruct r; reflexivity); destruct s; try reflexivity; destruct ok; try reflexivity;
+  destruct (get_sstate w slot); reflexivity.
 Qed.
 
 (* NO HIDDEN STATE: what a call returns (action and the text the class-level codec consumed) is a
@@ -83,7 +152,8 @@ Lemma step_no_hidden_state w1 w2 c slot o v md :
 Proof.
   intros H. unfold step. destruct (c_verb c); destruct (spec c) as [e|r|m s ok| |n]; try reflexivity;
   try (rewrite H; reflexivity); try (destruct r; reflexivity);
-  destruct s; try reflexivity; destruct ok; reflexivity.
+  destruct s; try reflexivity; destruct ok; try reflexivity;
+  destruct (get_sstate w1 slot), (get_sstate w2 slot); reflexivity.
 Qed.
 
 Definition is_load (c : cell) : bool := match c_verb c with VLoad | VLoadAll => true | _ => false end.
@@ -114,17 +184,63 @@ Lemma dump_path_effect w c slot o v md m :
   = (match md with MAppend => get_file w (fkey_of c slot) | MTrunc => [] end) ++ [TW m o v].
 Proof. intros Hv Hs. unfold step. rewrite Hv, Hs. simpl. apply get_set_file_same. Qed.
 
-Lemma dump_stream_effect w c slot o v md m :
+(* dump to a stream of the caller: the record is written AT the position of the stream (over what lies there,
+   NOT behind the text when the stream is positioned elsewhere), and the stream is left right behind it *)
+Lemma dump_stream_effect w c slot o v md m p :
+  c_verb c = VDump -> spec c = AWrote m SGivenStream true -> get_sstate w slot = SOpenAt p ->
+  get_stream (fst (step w (OCall c slot o v md))) slot = write_at (get_stream w slot) p [TW m o v] /\
+  get_sstate (fst (step w (OCall c slot o v md))) slot = SOpenAt (S p).
+Proof.
+  intros Hv Hs Hq. unfold step. rewrite Hv, Hs, Hq. cbn [fst]. split.
+  - rewrite get_stream_set_sstate. apply get_set_stream_same.
+  - apply get_set_sstate_same.
+Qed.
+
+(* ... in particular a stream positioned behind its text is appended to and stays behind its text *)
+Lemma dump_stream_at_end w c slot o v md m :
   c_verb c = VDump -> spec c = AWrote m SGivenStream true ->
-  get_stream (fst (step w (OCall c slot o v md))) slot = get_stream w slot ++ [TW m o v].
-Proof. intros Hv Hs. unfold step. rewrite Hv, Hs. simpl. apply get_set_stream_same. Qed.
+  get_sstate w slot = SOpenAt (length (get_stream w slot)) ->
+  let w' := fst (step w (OCall c slot o v md)) in
+  get_stream w' slot = get_stream w slot ++ [TW m o v] /\
+  get_sstate w' slot = SOpenAt (length (get_stream w' slot)).
+Proof.
+  intros Hv Hs Hq. destruct (dump_stream_effect w c slot o v md m _ Hv Hs Hq) as [H1 H2].
+  cbv zeta. rewrite H1, H2, write_at_end. split; [reflexivity|]. rewrite app_length. simpl.
+  f_equal. lia.
+Qed.
+
+(* ... and one positioned inside its text keeps everything before the position and everything behind the record *)
+Lemma dump_stream_keeps_rest w c slot o v md m p :
+  c_verb c = VDump -> spec c = AWrote m SGivenStream true -> get_sstate w slot = SOpenAt p ->
+  p <= length (get_stream w slot) ->
+  let t' := get_stream (fst (step w (OCall c slot o v md))) slot in
+  firstn p t' = firstn p (get_stream w slot) /\ nth_error t' p = Some (TW m o v) /\
+  skipn (S p) t' = skipn (S p) (get_stream w slot) /\
+  length t' = Nat.max (length (get_stream w slot)) (S p).
+Proof.
+  intros Hv Hs Hq Hp. destruct (dump_stream_effect w c slot o v md m _ Hv Hs Hq) as [H1 _].
+  cbv zeta. rewrite H1. repeat split.
+  - apply write_at_prefix; exact Hp.
+  - pose proof (write_at_here (get_stream w slot) p [TW m o v] Hp) as H. simpl length in H.
+    destruct (skipn p (write_at (get_stream w slot) p [TW m o v])) as [|a r] eqn:E; [discriminate|].
+    simpl in H. inversion H; subst a.
+    rewrite <- (firstn_skipn p (write_at (get_stream w slot) p [TW m o v])), E.
+    rewrite nth_error_app2; rewrite firstn_length_le; try lia.
+    + rewrite Nat.sub_diag. reflexivity.
+    + rewrite write_at_length by exact Hp. lia.
+    + rewrite write_at_length by exact Hp. lia.
+  - pose proof (write_at_suffix (get_stream w slot) p [TW m o v] Hp) as H. simpl length in H.
+    replace (p + 1) with (S p) in H by lia. exact H.
+  - rewrite write_at_length by exact Hp. simpl. f_equal. lia.
+Qed.
 
 (* frame: a call never touches a file other than the one it addresses, readers and dumps touch nothing *)
 Lemma call_frame_files w c slot o v md k :
   k <> fkey_of c slot -> get_file (fst (step w (OCall c slot o v md))) k = get_file w k.
 Proof.
   intros Hne. unfold step. destruct (c_verb c); destruct (spec c) as [e|r|m s ok| |n]; try reflexivity;
-  try (destruct r; reflexivity); destruct s; try reflexivity; destruct ok; try reflexivity; simpl.
+  try (destruct r; reflexivity); destruct s; try reflexivity; destruct ok; try reflexivity; simpl;
+  try (destruct (get_sstate w slot); reflexivity).
   apply get_set_file_other. congruence.
 Qed.
 
@@ -132,8 +248,19 @@ Lemma call_frame_streams w c slot o v md s :
   s <> slot -> get_stream (fst (step w (OCall c slot o v md))) s = get_stream w s.
 Proof.
   intros Hne. unfold step. destruct (c_verb c); destruct (spec c) as [e|r|m s' ok| |n]; try reflexivity;
-  try (destruct r; reflexivity); destruct s'; try reflexivity; destruct ok; try reflexivity; simpl.
-  apply get_set_stream_other. congruence.
+  try (destruct r; reflexivity); destruct s'; try reflexivity; destruct ok; try reflexivity;
+  destruct (get_sstate w slot); try reflexivity; cbn [fst].
+  rewrite get_stream_set_sstate. apply get_set_stream_other. congruence.
+Qed.
+
+(* ... and it neither closes nor moves a stream other than the one it was given *)
+Lemma call_frame_sstate w c slot o v md s :
+  s <> slot -> get_sstate (fst (step w (OCall c slot o v md))) s = get_sstate w s.
+Proof.
+  intros Hne. unfold step. destruct (c_verb c); destruct (spec c) as [e|r|m s' ok| |n]; try reflexivity;
+  try (destruct r; reflexivity); destruct s'; try reflexivity; destruct ok; try reflexivity;
+  destruct (get_sstate w slot); try reflexivity; cbn [fst].
+  rewrite get_set_sstate_other by congruence. reflexivity.
 Qed.
 
 Lemma non_dump_leaves_world w c slot o v md :
@@ -144,12 +271,49 @@ Proof.
 Qed.
 
 (* ---------------------------------------------------------------- what the caller owns *)
-(* no operation -- successful or refused, reader or writer -- changes the state of any stream of the caller *)
-Lemma step_keeps_sstate w x : w_sstate (fst (step w x)) = w_sstate w.
+(* no operation -- successful or refused, reader or writer -- closes a stream of the caller or leaves it
+   inside a record: streams that were open on a record boundary are open on a record boundary afterwards *)
+Lemma step_stays_ready w x : streams_ready w = true -> streams_ready (fst (step w x)) = true.
 Proof.
-  destruct x as [c slot o v md | k d]; [|reflexivity].
-  unfold step. destruct (c_verb c); destruct (spec c) as [e|r|m s ok| |n]; try reflexivity;
-  try (destruct r; reflexivity); destruct s; try reflexivity; destruct ok; reflexivity.
+  intros Hr. destruct x as [c slot o v md | k d | s p].
+  - unfold step. destruct (c_verb c); destruct (spec c) as [e|r|m s ok| |n]; try exact Hr;
+    try (destruct r; exact Hr); destruct s; try exact Hr; destruct ok; try exact Hr;
+    destruct (get_sstate w slot); try exact Hr; cbn [fst].
+    apply set_sstate_ready; [exact Hr | reflexivity].
+  - exact Hr.
+  - unfold step; cbn [fst]. destruct (get_sstate w s); try exact Hr.
+    apply set_sstate_ready; [exact Hr | reflexivity].
+Qed.
+
+(* the only operations that move a stream are a dump INTO it and the caller's own seek; nothing else does,
+   and nothing changes its text except a dump into it *)
+Definition touches_stream (s : nat) (x : op) : bool :=
+  match x with
+  | OSeek s' _ => Nat.eqb s' s
+  | OCall c slot _ _ _ => match c_verb c, c_tgt c with VDump, TStream => Nat.eqb slot s | _, _ => false end
+  | ORewrite _ _ => false
+  end.
+
+Lemma stream_dump_needs_stream_target c m : spec c = AWrote m SGivenStream true -> c_tgt c = TStream.
+Proof.
+  unfold spec. destruct (c_prs c); try discriminate;
+  destruct (c_verb c); destruct (c_fmt c); try discriminate; try (destruct (ens_like (c_otype c)); discriminate);
+  destruct (c_tgt c); try reflexivity; destruct (c_fsrc c); discriminate.
+Qed.
+
+Lemma step_untouched w x s : touches_stream s x = false ->
+  get_stream (fst (step w x)) s = get_stream w s /\ get_sstate (fst (step w x)) s = get_sstate w s.
+Proof.
+  intros Ht. destruct x as [c slot o v md | k d | s' p].
+  - simpl in Ht. destruct (Nat.eq_dec s slot) as [E|Hne].
+    + subst slot. rewrite Nat.eqb_refl in Ht.
+      unfold step. destruct (c_verb c) eqn:Ev; destruct (spec c) as [e|r|m q ok| |n] eqn:Es; try (split; reflexivity);
+      try (destruct r; split; reflexivity); destruct q; try (split; reflexivity); destruct ok; try (split; reflexivity).
+      rewrite (stream_dump_needs_stream_target c m Es) in Ht. discriminate.
+    + split; [apply call_frame_streams | apply call_frame_sstate]; exact Hne.
+  - split; reflexivity.
+  - simpl in Ht. apply Nat.eqb_neq in Ht. unfold step; cbn [fst].
+    destruct (get_sstate w s'); split; try reflexivity. apply get_set_sstate_other. exact Ht.
 Qed.
 
 (* a REFUSED call (unsupported format / parser / no format: spec = ARaise) leaves the whole world as it was *)
@@ -231,38 +395,45 @@ Proof.
   destruct md'; reflexivity.
 Qed.
 
-(* in every history the streams of the caller keep their state: one that was open behind its text is still
-   open behind its text after any number of calls, refused ones included *)
-Lemma final_keeps_sstate w p : w_sstate (final w p) = w_sstate w.
+(* in every history the streams of the caller stay usable: open, on a record boundary, after any number of
+   calls, refused ones included *)
+Lemma streams_stay_ready w p : streams_ready w = true -> streams_ready (final w p) = true.
 Proof.
-  revert w; induction p as [|x p IH]; intros w; simpl; [reflexivity|].
-  rewrite IH. apply step_keeps_sstate.
+  revert w; induction p as [|x p IH]; intros w H; simpl; [exact H|]. apply IH, step_stays_ready, H.
 Qed.
 
-Lemma stream_state_preserved w p s : get_sstate (final w p) s = get_sstate w s.
-Proof. unfold get_sstate. rewrite final_keeps_sstate. reflexivity. Qed.
-
-Lemma streams_stay_ready w p : streams_ready w = true -> streams_ready (final w p) = true.
-Proof. unfold streams_ready. rewrite final_keeps_sstate. exact (fun H => H). Qed.
-
-(* every observation of a history reports the stream states of the initial world, and no handle left open *)
-Lemma run_obs_owned w p ob : In ob (run w p) -> ob_sstate ob = map snd (w_sstate w) /\ ob_left_open ob = 0.
+(* a stream that no operation of the history addresses (no dump into it, no seek of it) holds what it held,
+   where it was *)
+Lemma stream_state_preserved w p s : existsb (touches_stream s) p = false ->
+  get_stream (final w p) s = get_stream w s /\ get_sstate (final w p) s = get_sstate w s.
 Proof.
-  revert w; induction p as [|x p IH]; intros w H; simpl in H; [contradiction|].
+  revert w; induction p as [|x p IH]; intros w H; simpl in *; [split; reflexivity|].
+  apply orb_false_elim in H; destruct H as [Hx Hp].
+  destruct (IH (fst (step w x)) Hp) as [H1 H2]. destruct (step_untouched w x s Hx) as [H3 H4].
+  rewrite H1, H2, H3, H4. split; reflexivity.
+Qed.
+
+(* every observation of a history reports every stream open on a record boundary, and no handle left open *)
+Lemma run_obs_owned w p ob : streams_ready w = true -> In ob (run w p) ->
+  forallb is_open (ob_sstate ob) = true /\ ob_left_open ob = 0.
+Proof.
+  revert w; induction p as [|x p IH]; intros w Hr H; simpl in H; [contradiction|].
   destruct H as [H|H].
-  - subst ob; simpl. rewrite step_keeps_sstate. split; reflexivity.
-  - specialize (IH _ H). rewrite step_keeps_sstate in IH. exact IH.
+  - subst ob; simpl. split; [|reflexivity]. pose proof (step_stays_ready w x Hr) as H.
+    unfold streams_ready in H. rewrite forallb_forall in *. intros q Hq. apply in_map_iff in Hq.
+    destruct Hq as [[k q'] [E Hin]]. simpl in E; subst q'. exact (H _ Hin).
+  - exact (IH _ (step_stays_ready w x Hr) H).
 Qed.
 
 (* a refused dump into a stream, after any history: the stream holds what it held, in the state it had *)
 Lemma refused_dump_keeps_stream w pre c slot o v md e s :
   spec c = ARaise e ->
   get_stream (final w (pre ++ [OCall c slot o v md])) s = get_stream (final w pre) s /\
-  get_sstate (final w (pre ++ [OCall c slot o v md])) s = get_sstate w s /\
+  get_sstate (final w (pre ++ [OCall c slot o v md])) s = get_sstate (final w pre) s /\
   snd (step (final w pre) (OCall c slot o v md)) = (ARaise e, None).
 Proof.
   intros H. rewrite final_app, final_one. rewrite (refused_leaves_world _ _ _ _ _ _ e H). cbn [fst snd].
-  repeat split. apply stream_state_preserved.
+  repeat split.
 Qed.
 
 (* soundness of the correspondence check *)
@@ -293,7 +464,7 @@ Proof.
 Qed.
 
 Lemma sstate_eqb_eq a b : sstate_eqb a b = true -> a = b.
-Proof. destruct a, b; simpl; intros H; try discriminate; reflexivity. Qed.
+Proof. destruct a, b; simpl; intros H; try discriminate; try reflexivity. apply Nat.eqb_eq in H; subst; reflexivity. Qed.
 
 Lemma obs_eqb_eq a b : obs_eqb a b = true -> a = b.
 Proof.
